@@ -42,6 +42,12 @@ func exec(c px.Context, op string, args []sx.Sexp) core.Result {
 	if op == "sigs" {
 		return execSigs(c, args)
 	}
+	if op == "cdesc" {
+		return execCdesc(c, args)
+	}
+	if op == "cassert" {
+		return execCassert(c, args)
+	}
 	if op == "descs" || op == "descx" {
 		return execDescs(c, op, args)
 	}
@@ -257,5 +263,6 @@ func gen(g *core.G) {
 	}
 	genSigs(g, lg)
 	genDescs(g, lg)
+	genCallable(g)
 	lat.GenTier2(g.Emit, g.Rng, "C19")
 }
